@@ -344,6 +344,31 @@ fn replace_patch_headers(patch_str: &str, from_path: &Path, to_path: &Path) -> S
         }
     };
 
+    // A name containing a quote, a backslash or a control character has to be written in the
+    // quoted form of the unified diff format, or the patch cannot be parsed back at undo time
+    let quote_for_patch = |name: String| -> String {
+        if !name.contains(['\n', '\t', '\0', '\r', '"', '\\']) {
+            return name;
+        }
+        let mut quoted = String::with_capacity(name.len() + 2);
+        quoted.push('"');
+        for ch in name.chars() {
+            match ch {
+                '\n' => quoted.push_str("\\n"),
+                '\t' => quoted.push_str("\\t"),
+                '\0' => quoted.push_str("\\0"),
+                '\r' => quoted.push_str("\\r"),
+                '"' => quoted.push_str("\\\""),
+                '\\' => quoted.push_str("\\\\"),
+                other => quoted.push(other),
+            }
+        }
+        quoted.push('"');
+        quoted
+    };
+    let from_str = quote_for_patch(from_str);
+    let to_str = quote_for_patch(to_str);
+
     // Only the two header lines in front of the first hunk are file names; a body line such
     // as "--- x" (a deleted line "-- x") or "+++ x" must be kept byte for byte
     let mut in_header = true;
